@@ -104,6 +104,17 @@ pub enum CloseReason {
 }
 
 impl CloseReason {
+    #[cfg(feature = "verif-hooks")]
+    fn verif_name(&self) -> &'static str {
+        match self {
+            CloseReason::Http10 => "Http10",
+            CloseReason::ClientConnectionClose => "ClientConnectionClose",
+            CloseReason::ServerConnectionClose => "ServerConnectionClose",
+            CloseReason::Not100Continue => "Not100Continue",
+            CloseReason::CloseDelimitedBody => "CloseDelimitedBody",
+        }
+    }
+
     fn explain(&self) -> &'static str {
         match self {
             CloseReason::Http10 => "version is http1.0",
@@ -126,6 +137,21 @@ impl<B, S> Flow<B, S> {
         };
 
         debug!("{:?}", wrapped);
+
+        #[cfg(feature = "verif-hooks")]
+        crate::verif_hooks::emit(crate::verif_hooks::Event::FlowState {
+            state: S::name(),
+            holder: wrapped.inner.call.verif_holder_name(),
+            writer: wrapped.inner.call.verif_writer(),
+            should_send_body: wrapped.inner.should_send_body,
+            await_100: wrapped.inner.await_100_continue,
+            close_reasons: wrapped
+                .inner
+                .close_reason
+                .iter()
+                .map(|r| r.verif_name())
+                .collect(),
+        });
 
         wrapped
     }
